@@ -15,7 +15,8 @@ RULE = ("tables of 1..60 rows per call; rows generated from a known tumour copy 
         "GRCh37/GRCh38}; plus rows with integer / random log2 in [-30, 30]. Explicit grids: every (ploidy, hapX, female, "
         "genome) cell at a purity < 1, every (ploidy, hapX, naming, purity None / 1.0) cell on the pure path (there the "
         "genome option is given but must be ignored: rows with PAR coordinates keep the copies of their chromosome "
-        "name); tables made of one chromosome class only (all X, all Y, X+Y, all PAR). Doors: do_call positionally, "
+        "name); tables made of one chromosome class only (all X, all Y, X+Y, all PAR); autosome-class rows under names other than "
+        "1..22 (chrM / MT, unplaced and random contigs, alternate haplotypes, names merely containing x or y). Doors: do_call positionally, "
         "do_call by keyword with the defaults left implicit, do_call twice on the same object, the entry points "
         "absolute_clonal / absolute_dataframe (purity < 1, and None / 1.0 as `export` calls them: reference copies "
         "then follow the genome option) / absolute_pure / absolute_expect / absolute_reference / log2_ratios called "
@@ -53,7 +54,32 @@ def _pure_direct(i):
     return i.get("entry") in ("absolute_clonal", "absolute_dataframe") and not _active(i)
 
 
+def _cmd_to_line(case, impl):
+    """op `cmd_call`: the rows as READ from the file, the same rows with `log2 - center_at` (float subtraction, as
+    `cnarr["log2"] -= c` does) and its antilog, and the command-line options the glue decides on"""
+    i = case["in"]
+    opt = i.get("cli_opts") or {}
+    if isinstance(impl, dict) and "cli_error" in impl:
+        line = K.to_line(case, {"__error__": "x"})
+        line["impl"] = {"error": impl["cli_error"]}
+    else:
+        line = K.to_line(case, impl)
+    line["op"] = "cmd_call"
+    c = opt.get("center_at")
+    line["in"]["center_at"] = None if c is None else frac(float(c))
+    line["in"]["center"] = opt.get("center")
+    line["in"]["sex_arg"] = opt.get("sex")
+    line["in"]["guessed_female"] = bool(impl.get("female_eff", False)) if isinstance(impl, dict) else False
+    shift = float(c) if c is not None else 0.0
+    rows = line["in"]["rows"]
+    line["in"]["rows_shift"] = [[r[0], r[1], r[2], frac(float(Fraction(r[3])) - shift),
+                                 frac(2.0 ** (float(Fraction(r[3])) - shift)), r[5]] for r in rows]
+    return line
+
+
 def to_line(case, impl):
+    if case.get("op") == "cmd_call":
+        return _cmd_to_line(case, impl)
     line = K.to_line(case, impl)
     if _pure_direct(case["in"]):
         line.pop("impl", None)  # judged by the harness (see ASSUMPTIONS); the driver's pure path is do_call's
@@ -83,6 +109,16 @@ def judge(case, impl, resp):
     i = case["in"]
     if isinstance(impl, dict) and "__error__" in impl:
         return _judge(case, impl, resp)
+    if case.get("op") == "cmd_call":
+        if "error" in resp and "refused" not in resp:
+            return [], ["model error: " + str(resp["error"])], None
+        if resp.get("refused") != resp.get("impl_refused"):
+            return [], [f"refusal: model {resp.get('refused')} command line {resp.get('impl_refused')} "
+                        f"(purity {i['purity_f']!r})"], None
+        if resp.get("refused"):
+            if isinstance(impl, dict) and impl.get("wrote"):
+                return [], ["the refused command wrote its output file"], None
+            return [], [], None
     spec, dis, sk = [], [], None
     if not _pure_direct(i):
         spec, dis, sk = _judge(case, impl, resp)
@@ -289,6 +325,46 @@ def _cli_case(rng, nrows=30, k=None):
     return c
 
 
+BAD_PURITIES = [1.5, -0.25, 2.0, 1.0000001, -1e-09, 100.0]
+CENTERS_AT = [0.5, -0.25, 1.0, 0.0, 0.125, -1.0]
+
+
+def _cmd_case(rng, k):
+    """`cnvkit.py call` with the options `_cmd_call` itself decides on: a purity outside (0, 1] (refused before anything
+    is read), `--purity 0.0` (accepted: no rescaling), `--center-at c` (the log2 column is shifted by -c first; every row
+    is WRITTEN with log2 + c, so the known n survives), `--center-at c --center mean` (c != 0 shadows the estimator)"""
+    kind = ["bad", "shift", "shift", "shift+center", "zero-purity", "shift"][k % 6]
+    force = {"method": "clonal", "par": rng.choice([None, None, "grch38"])}
+    if kind == "bad":
+        force["purity"] = rng.choice(BAD_PURITIES)
+    elif kind == "zero-purity":
+        force["purity"] = 0.0
+    else:
+        force["purity"] = rng.choice([0.25, 0.3, 0.5, 0.75, 0.9, 1.0, None, round(rng.uniform(0.05, 0.95), 2)])
+    c = _table(rng, rng.choice([4, 12, 30]), force=force)
+    i = c["in"]
+    c["op"] = "cmd_call"
+    i["cli"] = True
+    sex = rng.choice(K.SEX_FEMALE if i["female"] else K.SEX_MALE)
+    opts = {"implicit": rng.random() < 0.5, "sex": sex, "sex_flag": rng.choice(["-x", "--sample-sex", "-g", "--gender"]),
+            "hapx_flag": rng.choice(["-y", "--male-reference", "--haploid-x-reference"])}
+    if kind.startswith("shift"):
+        ca = rng.choice(CENTERS_AT) if rng.random() < 0.7 else round(rng.uniform(-2, 2), 3)
+        opts["center_at"] = ca
+        if kind == "shift+center" and ca != 0.0:
+            opts["center"] = rng.choice(["mean", "median", "mode", "biweight"])
+        # the file holds log2 + c; `_cmd_call` takes c off again
+        i["log2_f"] = [lg + ca for lg in i["log2_f"]]
+        i["rows"] = [[r[0], r[1], r[2], frac(lg), frac(2.0 ** lg), r[5]] for r, lg in zip(i["rows"], i["log2_f"])]
+    i["cli_opts"] = opts
+    p = i["purity_f"]
+    i["keep_n"] = kind != "bad" and (p is None or p == 0.0 or p >= 0.05)
+    if p == 0.0:
+        i["keep_n"] = False  # n was generated for an active purity of 0: meaningless; the model is compared
+    c["tag"] = "cmd-" + kind
+    return c
+
+
 def gen_cases(rng, tier):
     q = tier != "thorough"
     cases = []
@@ -338,6 +414,14 @@ def gen_cases(rng, tier):
                     "classes": classes, "purity": purity, "method": "clonal",
                     "par": rng.choice(["grch37", "grch38"]) if classes[0].startswith("par") else rng.choice([None, "grch38"])}),
                     share=0.5))
+    # the glue of `_cmd_call` (op `cmd_call`): purity validation, --center-at / --center precedence, sex handoff
+    for k in range({"quick": 24, "thorough": 180, "search": 24}[tier]):
+        cases.append(_cmd_case(rng, k))
+    # autosome-class rows under names that are not 1..22 (chrM, unplaced contigs, alternate haplotypes, names that only
+    # contain an x / y): `ploidy` reference copies on the pure path (by name) and on the purity path (by mask) alike
+    for _ in range({"quick": 24, "thorough": 200, "search": 24}[tier]):
+        cases.append(K.other_names(rng, _table(rng, rng.choice([3, 16, 30]), force={
+            "method": "clonal", "purity": rng.choice([None, 1.0, 0.5, 0.3]), "classes": ["auto", "auto", "auto", "x", "y"]})))
     return cases
 
 
